@@ -180,9 +180,12 @@ pub fn small_shapes(tier: Tier) -> Vec<LaxShape> {
     let nmax = if tier == Tier::Quick { 2 } else { 3 };
     for n in 0..=nmax {
         for ar in [vec![], vec![(1usize, 1usize)], vec![(0, 2)], vec![(2, 0)]] {
-            for q in 0..=1usize {
+            for q in 0..=2usize {
                 for a in 0..=2usize {
                     for b in 0..=2usize {
+                        if q == 2 && (a + b > 1 || !ar.is_empty()) {
+                            continue;
+                        }
                         let sh = LaxShape::new(n, &ar, q, a, b);
                         if sh.inhabited() && sh.refs() <= (if tier == Tier::Quick { 5 } else { 7 }) {
                             v.push(sh);
